@@ -206,6 +206,26 @@ def check_table(rep, mir, st):
     return tabs
 
 
+def check_ternary_nesting(rep, st):
+    """nested conditionals in every operand position of a constant expression (the calculator handles ?: outside of its operator
+    table: the E-MIR obligations cover one level). Expected values computed here."""
+    def ev(t):
+        if isinstance(t, int): return t
+        return ev(t[1]) if ev(t[0]) != 0 else ev(t[2])
+    def sh(t, paren): 
+        if isinstance(t, int): return str(t)
+        s = '%s ? %s : %s' % (sh(t[0], True), sh(t[1], False), sh(t[2], False))     # middle operand needs no parentheses in C, the last one nests to the right
+        return '(' + s + ')' if paren else s
+    trees = []
+    for c1, c2 in itertools.product((0, 1), (0, 1)):
+        trees += [(c1, (c2, 5, 6), 7), (c1, 5, (c2, 6, 7)), ((c2, c1, 1 - c1), 5, 6), (c1, (c2, 5, 6), (1 - c2, 7, 8)), (c1, (c2, (c1, 2, 3), 6), 7)]
+    for k, t in enumerate(trees):
+        src = 'const int k = %s;' % sh(t, False); want = ev(t)
+        out = replay_const(src); st['ternary_nesting'] += 1
+        if out != ('ok', want):
+            rep.violation('ternary.nesting.' + sh(t, False).replace(' ', ''), 'constant expression `%s`: C gives %d, the compiler gives %s' % (src, want, out), dict(kind='mir-const', source=src + ' void main() {}', expect=want, got=out))
+
+
 def check_sizeof(rep, st):
     """sizeof of declared objects through the real compiler for every variable shape x symbolic-free sizes (concrete cross-check,
     the MIR obligation on parse_sizeof is discharged below)"""
@@ -305,6 +325,7 @@ def run(tier):
     check_ternary(rep, st)
     tabs = check_table(rep, mir, st)
     check_sizeof(rep, st)
+    check_ternary_nesting(rep, st)
     st2, smp, results = runner.against_reference(rep, list(fold_programs(tier)) + list(table_programs(tabs)), levels=(('O1', ['-O1']),))
     rep.cov = dict(explanation='bounded symbolic execution of the rustc MIR of parse_calc::{closure#1} (infix operators) and {closure#2} (prefix operators), dumped from the current tree; '
                    'z3 decides all 2^64 operand pairs per operator against 32-bit C semantics; the calculator operator table is read from the MIR of compile() and compared with C for every '
